@@ -20,6 +20,7 @@ inductive Op (R : Type) where
   | setNode (n : String) (newCap : Option R)
   | addNode (n : String) (c : R)
   | removeNode (n : String)
+  | nodeResource (n : String) (fix : Bool)
 
 def runOp : Op R → M R Unit
   | .create a => create a
@@ -30,6 +31,7 @@ def runOp : Op R → M R Unit
   | .setNode n c => setNode n c
   | .addNode n c => addNode n c
   | .removeNode n => removeNode n
+  | .nodeResource n fix => nodeResource n fix
 
 /-- state after running `op` from `s` under fault plan `flt` -/
 def after (op : Op R) (flt : Option Addr) (s : State R) : State R := (run (runOp op) flt s).2.st
